@@ -72,12 +72,14 @@ class UnitResult:
         self.src = {}
 
 
-def verify_unit(repo, reg, qualname, timeout_ms=10000):
-    """Symbolically execute the real function against its contract; returns UnitResult (obligations unsolved)."""
+def verify_unit(repo, reg, qualname, timeout_ms=10000, instance=None):
+    """Symbolically execute the real function against its contract; returns UnitResult (obligations unsolved).
+    qualname may carry a '#tag' suffix (additional contract on the same function); instance selects one entry of
+    the contract's `instances` (concrete values for ghost names)."""
     t0 = time.time()
     c = reg.get(qualname)
-    res = UnitResult(qualname)
-    fi = repo.funcs.get(qualname)
+    res = UnitResult(qualname if instance is None else "%s[%d]" % (qualname, instance))
+    fi = repo.funcs.get(qualname.split("#")[0])
     if fi is None:
         res.status, res.message = "undecided", "function %s not found in repository" % qualname
         return res
@@ -85,7 +87,7 @@ def verify_unit(repo, reg, qualname, timeout_ms=10000):
     bi = Builtins(reg)
     bi.load_enums(repo)
     ex = Exec(repo, reg, bi)
-    ex.unit = qualname
+    ex.unit = qualname.split("#")[0]
     ex.current_contract = c
     p = initial_path(reg)
     assumptions = []
@@ -100,6 +102,10 @@ def verify_unit(repo, reg, qualname, timeout_ms=10000):
             env[nm] = make_symbolic(nm, c.params[nm], assumptions)
         for nm, srt in c.ghost.items():
             env[nm] = make_symbolic(nm, srt, assumptions)
+        if instance is not None:
+            for nm, val in c.instances[instance].items():
+                env[nm] = VStr(val) if isinstance(val, str) else (VInt(val) if isinstance(val, int) else val)
+            res.src_instance = c.instances[instance]
         for nm, srt in c.params.items():
             if nm not in env:
                 env[nm] = make_symbolic(nm, srt, assumptions)     # captured variables of closures
@@ -147,6 +153,7 @@ def verify_unit(repo, reg, qualname, timeout_ms=10000):
     res.node_kinds = sorted(ex.node_kinds)
     obl = []
     pc0 = list(p0.pc)
+    qualname = res.unit
 
     def is_prop(cid):
         return cid in c.prop_clauses
